@@ -12,9 +12,17 @@ package main
 // predecessor actually taken); ==, != on constants / nil / pointers; !, &&, || (as control flow);
 // integer + - < <= > >= & | ^ &^ (loop counters and bit masks); len of a constant list, indexing a
 // constant list (range loops over the method lists); conversions between string-like types; string
-// concatenation of constants. Calls are not followed (result unknown) except same-package pure
-// helpers listed in `inline`. A call inside the module that receives a pointer to an abstract
-// object invalidates ("clobbers") that object. An `If` on an unknown value ends the path as "open"
+// concatenation of constants. Calls to functions of the analysed module with a body (static callees,
+// methods, closures) are FOLLOWED when they receive a pointer to an abstract object or only known
+// arguments: the callee is evaluated on the same abstract heap with its parameters (and captured
+// variables) bound to the evaluated arguments, depth <= c10tFollowDepth, no recursion, under a step
+// budget. Branches the inputs do not decide inside a callee are explored on both edges; the states at
+// its returns are joined (a location / result on which the paths differ becomes unknown) - or, when
+// the caller itself runs in fork mode, each returning path continues the caller separately. A callee
+// that cannot be evaluated within the budget (I/O loops, recursion, too many open branches) is
+// treated as before: result unknown, and a call inside the module that receives a pointer to an
+// abstract object invalidates ("clobbers") that object. Helpers listed in `inline` are evaluated
+// exactly (single decided path required). An `If` on an unknown value ends the path as "open"
 // (or, with fork set, is explored on both edges up to maxPaths). The caller decides whether an open
 // end or an unknown value matters and reports c.Undecided with the position if it does.
 
@@ -33,9 +41,18 @@ const (
 	c10tvUnknown = iota
 	c10tvConst   // c
 	c10tvNil
-	c10tvPtr  // obj, path: address of (a sub-location of) an abstract object
-	c10tvList // list: constant slice
-	c10tvElem // list, idx: address of list[idx]
+	c10tvPtr    // obj, path: address of (a sub-location of) an abstract object
+	c10tvList   // list: constant slice
+	c10tvElem   // list, idx: address of list[idx]
+	c10tvNonNil // some non-nil value (the error of a followed callee's error return)
+)
+
+// c10tFollowDepth bounds the nesting of followed callees; c10tFollowSteps is the step budget of one
+// followed call (all of its paths and nested callees together).
+const (
+	c10tFollowDepth = 4
+	c10tFollowSteps = 6000
+	c10tFollowPaths = 32
 )
 
 type c10tVal struct {
@@ -97,8 +114,36 @@ func (v c10tVal) String() string {
 		return "[" + strings.Join(s, ",") + "]"
 	case c10tvElem:
 		return fmt.Sprintf("&list[%d]", v.idx)
+	case c10tvNonNil:
+		return "non-nil"
 	}
 	return "?"
+}
+
+// equal: structurally the same abstract value (used when the paths of a followed callee are joined).
+func (v c10tVal) equal(w c10tVal) bool {
+	if v.kind != w.kind {
+		return false
+	}
+	switch v.kind {
+	case c10tvConst:
+		return v.c.Kind() == w.c.Kind() && constant.Compare(v.c, token.EQL, w.c)
+	case c10tvPtr:
+		return v.obj == w.obj && v.path == w.path
+	case c10tvList, c10tvElem:
+		if len(v.list) != len(w.list) || v.idx != w.idx {
+			return false
+		}
+		for i := range v.list {
+			if !v.list[i].equal(w.list[i]) {
+				return false
+			}
+		}
+		return true
+	case c10tvUnknown:
+		return false
+	}
+	return true // nil, non-nil
 }
 
 type c10tLoc struct {
@@ -142,6 +187,19 @@ func (s *c10tState) clone() *c10tState {
 	return n
 }
 
+// cloneHeap copies the heap side of s; the environment starts empty (a callee's own SSA values).
+func (s *c10tState) cloneHeap() *c10tState {
+	n := &c10tState{env: map[ssa.Value]c10tVal{}, heap: make(map[c10tLoc]c10tVal, len(s.heap)), clobbered: map[int]bool{}, nextObj: s.nextObj}
+	for k, v := range s.heap {
+		n.heap[k] = v
+	}
+	for k, v := range s.clobbered {
+		n.clobbered[k] = v
+	}
+	n.emits = append(n.emits, s.emits...)
+	return n
+}
+
 // c10tOutcome is the end of one evaluated path.
 type c10tOutcome struct {
 	kind    string // "success" | "error" | "open" | "undecided"
@@ -164,6 +222,15 @@ type c10tEval struct {
 	maxSteps int
 	maxPaths int
 	paths    int
+	// following of module callees
+	noFollow   bool                   // never follow (calls are opaque as in the first version of the evaluator)
+	depth      int                    // nesting depth of this evaluator (0 = the function the rule evaluates)
+	active     map[*ssa.Function]bool // functions being evaluated up the stack (no recursion)
+	nested     bool                   // evaluating a followed callee: a return of unknown error class is not fatal
+	total      *int                   // steps used by the followed call this evaluator belongs to (all paths)
+	gaveUp     map[string]bool        // callee+arguments that could not be evaluated within the budget
+	rootPkg    *types.Package         // package of the function the rule evaluates (set by runAt at depth 0)
+	followOnly map[*ssa.Function]bool // when set: exactly these callees are followed
 }
 
 // returns memoises the return classification per function (it would be recomputed for every row
@@ -228,41 +295,62 @@ func (e *c10tEval) val(st *c10tState, v ssa.Value) c10tVal {
 
 // run evaluates fn from block start (entered from prev, nil for the entry) and returns the path ends.
 func (e *c10tEval) run(fn *ssa.Function, start, prev *ssa.BasicBlock, st *c10tState) []c10tOutcome {
+	return e.runAt(fn, start, 0, prev, st)
+}
+
+// runAt evaluates fn from instruction idx of block start. idx > 0 resumes in the middle of a block
+// (after a followed call that returned on several paths): the block's phis are already evaluated.
+func (e *c10tEval) runAt(fn *ssa.Function, start *ssa.BasicBlock, idx int, prev *ssa.BasicBlock, st *c10tState) []c10tOutcome {
 	if e.maxSteps == 0 {
 		e.maxSteps = 20000
 	}
 	if e.maxPaths == 0 {
 		e.maxPaths = 256
 	}
+	if e.rootPkg == nil && e.depth == 0 {
+		e.rootPkg = fnPkg(fn)
+	}
 	b := start
 	for {
-		// phis first, evaluated in parallel against the state on entry
-		var phiVals []c10tVal
-		var phis []*ssa.Phi
+		nphi := 0
 		for _, in := range b.Instrs {
-			phi, ok := in.(*ssa.Phi)
-			if !ok {
+			if _, ok := in.(*ssa.Phi); !ok {
 				break
 			}
-			pv := c10tVal{}
-			if prev != nil {
-				for i, pb := range b.Preds {
-					if pb == prev {
-						pv = e.val(st, phi.Edges[i])
-						break
+			nphi++
+		}
+		if idx == 0 {
+			// phis first, evaluated in parallel against the state on entry
+			phiVals := make([]c10tVal, nphi)
+			for k := 0; k < nphi; k++ {
+				phi := b.Instrs[k].(*ssa.Phi)
+				if prev != nil {
+					for i, pb := range b.Preds {
+						if pb == prev {
+							phiVals[k] = e.val(st, phi.Edges[i])
+							break
+						}
 					}
 				}
 			}
-			phis = append(phis, phi)
-			phiVals = append(phiVals, pv)
+			for k := 0; k < nphi; k++ {
+				st.env[b.Instrs[k].(*ssa.Phi)] = phiVals[k]
+			}
 		}
-		for i, phi := range phis {
-			st.env[phi] = phiVals[i]
+		if idx < nphi {
+			idx = nphi
 		}
-		for _, in := range b.Instrs[len(phis):] {
+		for i := idx; i < len(b.Instrs); i++ {
+			in := b.Instrs[i]
 			st.steps++
 			if st.steps > e.maxSteps {
 				return []c10tOutcome{{kind: "undecided", st: st, pos: in.Pos(), why: "evaluation step budget exhausted (loop not decided by the row's inputs?)"}}
+			}
+			if e.total != nil {
+				*e.total++
+				if *e.total > c10tFollowSteps {
+					return []c10tOutcome{{kind: "undecided", st: st, pos: in.Pos(), why: "step budget of a followed call exhausted"}}
+				}
 			}
 			switch x := in.(type) {
 			case *ssa.If:
@@ -299,21 +387,252 @@ func (e *c10tEval) run(fn *ssa.Function, start, prev *ssa.BasicBlock, st *c10tSt
 						if rp.Class == "error" {
 							o.kind = "error"
 						} else if rp.Class == "maybe" {
-							o.kind = "undecided"
-							o.why = "cannot tell whether this return carries an error"
+							// `return helper(...)`: the evaluated error value of a followed helper decides
+							ev := c10tVal{}
+							for k := len(x.Results) - 1; k >= 0; k-- {
+								if isErrorType(x.Results[k].Type()) {
+									ev = o.results[k]
+									break
+								}
+							}
+							switch {
+							case ev.kind == c10tvNil:
+							case ev.kind == c10tvNonNil:
+								o.kind = "error"
+							case !e.nested:
+								o.kind = "undecided"
+								o.why = "cannot tell whether this return carries an error"
+							}
 						}
 					}
 				}
 				return []c10tOutcome{o}
 			case *ssa.Panic:
 				return []c10tOutcome{{kind: "error", st: st, pos: x.Pos(), why: "panic"}}
+			case *ssa.Call:
+				conts, followed := e.follow(st, x)
+				if !followed {
+					e.step(st, in)
+					break
+				}
+				if len(conts) == 1 {
+					st.adopt(conts[0].st)
+					st.env[x] = conts[0].val
+					break
+				}
+				// the callee returns on several paths and this evaluator explores paths separately
+				e.paths += len(conts) - 1
+				if e.paths > e.maxPaths {
+					return []c10tOutcome{{kind: "undecided", st: st, pos: x.Pos(), why: "too many undetermined branches"}}
+				}
+				var outs []c10tOutcome
+				for _, ct := range conts {
+					ns := st.clone()
+					ns.adopt(ct.st)
+					ns.env[x] = ct.val
+					outs = append(outs, e.runAt(fn, b, i+1, prev, ns)...)
+				}
+				return outs
 			default:
 				e.step(st, in)
 			}
 		}
 		return []c10tOutcome{{kind: "undecided", st: st, why: "block without terminator"}}
 	next:
+		idx = 0
 	}
+}
+
+// adopt takes over the heap side of o (the state a followed callee returned in); the environment
+// (the caller's SSA values) stays.
+func (s *c10tState) adopt(o *c10tState) {
+	s.heap, s.clobbered, s.emits, s.nextObj = o.heap, o.clobbered, o.emits, o.nextObj
+	if o.steps > s.steps {
+		s.steps = o.steps
+	}
+}
+
+// c10tCont is one way a followed callee returns: the state it leaves and its result.
+type c10tCont struct {
+	st  *c10tState
+	val c10tVal
+}
+
+// follow evaluates the callee of call on the current abstract heap (see the file comment). It
+// returns ok=false when the call is not followed (then the caller treats it as an opaque call).
+func (e *c10tEval) follow(st *c10tState, call *ssa.Call) ([]c10tCont, bool) {
+	if e.noFollow || e.depth >= c10tFollowDepth {
+		return nil, false
+	}
+	g := calleeFn(call)
+	if g == nil || g.Blocks == nil || e.inline[g] || e.active[g] || fnPkg(g) == nil || !inModule(fnPkg(g).Path()) {
+		return nil, false
+	}
+	var args []c10tVal
+	for _, a := range call.Call.Args {
+		args = append(args, e.val(st, a))
+	}
+	var binds []c10tVal
+	if mc, ok := call.Call.Value.(*ssa.MakeClosure); ok {
+		for _, bv := range mc.Bindings {
+			binds = append(binds, e.val(st, bv))
+		}
+	}
+	if len(args) != len(g.Params) || len(binds) != len(g.FreeVars) {
+		return nil, false
+	}
+	if e.followOnly != nil {
+		if !e.followOnly[g] {
+			return nil, false
+		}
+	} else {
+		// worth following: a helper of the evaluated function's own package, or a callee that can see an
+		// abstract object or computes from known values only (I/O layers of other packages are not)
+		hasPtr, allKnown := false, len(args) > 0
+		for _, a := range append(append([]c10tVal{}, args...), binds...) {
+			if a.kind == c10tvPtr {
+				hasPtr = true
+			}
+			if a.kind == c10tvUnknown {
+				allKnown = false
+			}
+		}
+		if !hasPtr && !allKnown && (e.rootPkg == nil || fnPkg(g) != e.rootPkg) {
+			return nil, false
+		}
+	}
+	if e.onCall != nil {
+		if _, ok := e.onCall(st, call, args); ok {
+			return nil, false
+		}
+	}
+	key := g.String()
+	for _, a := range args {
+		key += "|" + a.String()
+	}
+	for _, a := range binds {
+		key += "|" + a.String()
+	}
+	if e.gaveUp == nil {
+		e.gaveUp = map[string]bool{}
+	}
+	if e.gaveUp[key] {
+		return nil, false
+	}
+	total := e.total
+	if total == nil {
+		total = new(int)
+	}
+	active := map[*ssa.Function]bool{g: true}
+	for f := range e.active {
+		active[f] = true
+	}
+	sub := &c10tEval{p: e.p, init: e.init, onCall: e.onCall, inline: e.inline, tracked: e.tracked, retMemo: e.retMemo,
+		followOnly: e.followOnly, rootPkg: e.rootPkg, fork: true, maxPaths: c10tFollowPaths, depth: e.depth + 1, active: active, nested: true, total: total, gaveUp: e.gaveUp}
+	ss := st.cloneHeap()
+	for i, p := range g.Params {
+		ss.env[p] = args[i]
+	}
+	for i, fv := range g.FreeVars {
+		ss.env[fv] = binds[i]
+	}
+	if o := calleeObj(call); o != nil {
+		ss.emits = append(ss.emits, c10tEmit{callee: o, args: args, call: call})
+	}
+	outs := sub.run(g, g.Blocks[0], nil, ss)
+	ei := -1
+	res := g.Signature.Results()
+	for i := 0; i < res.Len(); i++ {
+		if isErrorType(res.At(i).Type()) {
+			ei = i
+		}
+	}
+	var conts []c10tCont
+	for _, o := range outs {
+		if o.kind == "error" && o.ret == nil {
+			continue // a panicking path does not return
+		}
+		if o.ret == nil || (o.kind != "success" && o.kind != "error") {
+			e.gaveUp[key] = true
+			return nil, false
+		}
+		rs := append([]c10tVal{}, o.results...)
+		if ei >= 0 && ei < len(rs) && rs[ei].kind == c10tvUnknown && o.kind == "error" {
+			rs[ei] = c10tVal{kind: c10tvNonNil}
+		}
+		var v c10tVal
+		switch len(rs) {
+		case 0:
+		case 1:
+			v = rs[0]
+		default:
+			v = c10tVal{kind: c10tvList, list: rs}
+		}
+		o.st.steps += st.steps
+		conts = append(conts, c10tCont{o.st, v})
+	}
+	if len(conts) == 0 {
+		e.gaveUp[key] = true
+		return nil, false
+	}
+	if len(conts) == 1 || e.fork {
+		return conts, true
+	}
+	return []c10tCont{e.join(conts)}, true
+}
+
+// join merges the returning paths of a followed callee into one state: a heap location, or a result,
+// on which the paths differ becomes unknown; an object clobbered on one path is clobbered.
+func (e *c10tEval) join(conts []c10tCont) c10tCont {
+	first := conts[0]
+	out := c10tCont{st: first.st.clone(), val: first.val}
+	for _, ct := range conts[1:] {
+		for k := range ct.st.clobbered {
+			if !out.st.clobbered[k] {
+				out.st.clobbered[k] = true
+			}
+		}
+		if ct.st.nextObj > out.st.nextObj {
+			out.st.nextObj = ct.st.nextObj
+		}
+		if ct.st.steps > out.st.steps {
+			out.st.steps = ct.st.steps
+		}
+	}
+	locs := map[c10tLoc]bool{}
+	for _, ct := range conts {
+		for k := range ct.st.heap {
+			locs[k] = true
+		}
+	}
+	for k := range locs {
+		v := e.load(first.st, k)
+		for _, ct := range conts[1:] {
+			if w := e.load(ct.st, k); !v.equal(w) {
+				v = c10tVal{}
+				break
+			}
+		}
+		out.st.heap[k] = v
+	}
+	for _, ct := range conts[1:] {
+		out.val = c10tJoinVal(out.val, ct.val)
+	}
+	return out
+}
+
+func c10tJoinVal(a, b c10tVal) c10tVal {
+	if a.equal(b) {
+		return a
+	}
+	if a.kind == c10tvList && b.kind == c10tvList && len(a.list) == len(b.list) {
+		r := c10tVal{kind: c10tvList}
+		for i := range a.list {
+			r.list = append(r.list, c10tJoinVal(a.list[i], b.list[i]))
+		}
+		return r
+	}
+	return c10tVal{}
 }
 
 func c10CondPos(i *ssa.If) token.Pos {
@@ -396,6 +715,9 @@ func (e *c10tEval) step(st *c10tState, in ssa.Instruction) {
 		a := e.val(st, x.Addr)
 		if a.kind == c10tvPtr {
 			st.heap[c10tLoc{a.obj, a.path}] = e.val(st, x.Val)
+		} else if v := e.val(st, x.Val); v.kind == c10tvPtr && e.tracked[v.obj] {
+			// the address of an abstract object is stored where the evaluator cannot see: it escapes
+			e.clobber(st, v.obj)
 		}
 		// a store through an unknown address cannot alias the abstract objects: their addresses are
 		// only ever produced from the bound parameters, and every value derived from those is known.
@@ -499,16 +821,28 @@ func (e *c10tEval) call(st *c10tState, call ssa.CallInstruction) c10tVal {
 	if inMod {
 		for _, a := range args {
 			if a.kind == c10tvPtr && e.tracked[a.obj] {
-				st.clobbered[a.obj] = true
-				for k := range st.heap {
-					if k.obj == a.obj {
-						delete(st.heap, k)
-					}
+				e.clobber(st, a.obj)
+			}
+		}
+		if mc, ok := cc.Value.(*ssa.MakeClosure); ok {
+			for _, bv := range mc.Bindings {
+				if a := e.val(st, bv); a.kind == c10tvPtr && e.tracked[a.obj] {
+					e.clobber(st, a.obj)
 				}
 			}
 		}
 	}
 	return c10tVal{}
+}
+
+// clobber forgets everything known about abstract object obj.
+func (e *c10tEval) clobber(st *c10tState, obj int) {
+	st.clobbered[obj] = true
+	for k := range st.heap {
+		if k.obj == obj {
+			delete(st.heap, k)
+		}
+	}
 }
 
 func c10tBinOp(op token.Token, a, b c10tVal) c10tVal {
@@ -521,6 +855,8 @@ func c10tBinOp(op token.Token, a, b c10tVal) c10tVal {
 		case a.kind == c10tvNil && b.kind == c10tvNil:
 			eq, ok = true, true
 		case (a.kind == c10tvNil && b.kind == c10tvPtr) || (a.kind == c10tvPtr && b.kind == c10tvNil):
+			eq, ok = false, true
+		case (a.kind == c10tvNil && b.kind == c10tvNonNil) || (a.kind == c10tvNonNil && b.kind == c10tvNil):
 			eq, ok = false, true
 		case a.kind == c10tvPtr && b.kind == c10tvPtr:
 			eq, ok = a.obj == b.obj && a.path == b.path, true
